@@ -18,7 +18,16 @@ def execute(case):
         if fmt in ("cbdt", "sbix"):
             over.update(use_pngquant=False)
         srcs = conformance.base_sources()
-        if case.get("seq"):
+        if case.get("empty_middle"):
+            # three sources, the middle one paints nothing: colour glyphs are not contiguous in the glyph order
+            from vmc.core import lattice as L
+            from vmc.gen import scenes
+            from vmc.oracles.scene import Glyph
+
+            g3, _ = scenes.mk(L.full(scenes.DIMS, {"nglyphs": 3}))
+            g3[1] = Glyph(g3[1].cps, g3[1].vb, [])
+            srcs = [(f"emoji_u{'_'.join('%04x' % c for c in g.cps)}.svg", g.svg()) for g in g3]
+        elif case.get("seq"):
             srcs = srcs + [("emoji_ue000_200d_e001.svg", srcs[0][1])]
         files = cli.write_sources(w / "src", srcs)
         r = cli.nanoemoji(w, cli.flags_for(over) + [str(f) for f in files])
@@ -47,5 +56,7 @@ def run(report, tier):
     for fmt, mc in (("glyf_colr_1", "plain"), ("picosvg", "plain"), ("glyf_colr_0", "bitmaps"), ("untouchedsvgz", "plain")):
         for keep in (True, False):
             cases.append({"kind": "cli", "fmt": fmt, "keep": keep, "maximum_color": mc, "seq": True})
+    for fmt in ("picosvg", "glyf_colr_1"):
+        cases.append({"kind": "cli", "fmt": fmt, "keep": True, "maximum_color": "bitmaps", "empty_middle": True})
     listing.run(report, cases, execute, timeout=900, jobs=6)
     report.extra["cli_fonts_checked"] = len(cases)
